@@ -199,6 +199,15 @@ def main():
             c = json.loads(json.dumps(f["witness"]))
             c.update(state=st, cid="fixed:%s:%s" % (f["id"], st), group=c.get("group", "witness"))
             cases.append(c)
+    # one client is enough for concurrency inside a location: the actions of one event run concurrently and share the request's
+    # context; with hooks installed (every location of a sys.System) each Env.AddFact runs a hook under the held state lock
+    for st in ("indexed", "linear"):
+        for r in range(2 if not ck.thorough else 10):
+            cases.append({"kind": "c12.conc", "cid": "actions:%s:%d" % (st, r), "state": st, "seed": r + 1, "jitter_us": 0, "hooks": True, "group": "stress", "timeout_ms": 30000,
+                          "setup": [{"op": "addFact", "id": "k%d" % i, "fact": {"k": i}} for i in range(6)] +
+                                   [{"op": "addRule", "id": "ra", "rule": {"when": {"pattern": {"go": "?x"}}, "condition": {"pattern": {"k": "?k"}},
+                                                                            "action": {"code": "Env.AddFact(\"w\", {\"z\": 1})"}}}],
+                          "clients": [[{"op": "event", "event": {"go": 1}}] * 8] * (1 + r % 2)})
     nstress = 0
     for st in ("indexed", "linear"):
         for k, nops in ([(2, 120), (4, 100), (8, 60)] if not ck.thorough else [(k, 200) for k in range(2, 9)] * 3):
